@@ -40,7 +40,8 @@ RULE = ("Histories (lists of <= 30 op-tuples, quick) interleaving every public (
         "(keeping the source ndarray/AnyArray object), handle acquisition (.val, .val.val, .raw, "
         ".asnumpy(), .val_rw(), .asnumpy_rw(), AnyArray wrappers, views/slices/reshapes of those), write "
         "attempts through the source object and through every handle (item/slice assignment, in-place "
-        "operators, ufunc out=, ufunc.at, fill, sort, put, copyto, putmask, byteswap, buffer protocol, "
+        "operators, ufunc out=, fill, sort, partition, put, flat, copyto, putmask, place, byteswap, setfield, "
+        "nditer, buffer protocol, "
         "AnyArray.__setitem__/__i*__/__array_ufunc__/__array_function__ with out=) and construction of "
         "operators holding a field (makeOp, DiagonalOperator, Adder, GaussianEnergy, VdotOperator). "
         "Oracle = model of snapshot bytes: after every step each field and each derived operator (on a "
@@ -67,6 +68,10 @@ ASSUMPTIONS = [
     "is reported as rw_copy_refuses_write",
     "a write attempt may raise ValueError/TypeError/RuntimeError (refusal); it must never change a snapshot",
     "fields are observed through Field.val.val (side-effect free); Field.asnumpy() is cross-checked at the end",
+    "excluded by construction (defects of numpy itself, re-checked on every run by KNOWN_PROBES when listed in "
+    "known_findings.json): ufunc.at and the .real=/.imag= setters of 0-d arrays write into read-only ndarrays",
+    "not generated (deliberate circumvention, like setflags): deprecated in-place metadata setters a.shape= / "
+    "a.dtype= / a.strides= and ndarray.resize(refcheck=False) on the source object",
 ]
 
 DT = {"f8": np.float64, "c16": np.complex128, "i8": np.int64, "f4": np.float32}
@@ -377,6 +382,30 @@ def _derive_aa(h, kind):
     if kind == "rewrap":
         return ift.AnyArray(h.val)
     raise KeyError(kind)
+
+
+def _cgroup(ctor):
+    """constructor group used in the constructor x handle x write-family histogram"""
+    c = ctor.split("<")[0]
+    if c in ARR_CTORS or c == "cast_domain":
+        return c
+    if c in FULL_KINDS:
+        return "full"
+    if c in RANDOM_KINDS or c == "mf_from_random":
+        return "from_random"
+    if c in ("real", "imag", "conjugate", "map_view"):
+        return "view_of_field"
+    if c in ("pos", "scale1", "at", "extract", "map_id", "mf_at"):
+        return "same_field"
+    if c.startswith("mf_part"):
+        return "mf_part"
+    if c.startswith("mf_from_dict"):
+        return "mf_from_dict"
+    if c in ("mf_from_raw", "mf_makeField_dict"):
+        return "mf_from_raw"
+    if c.startswith("mf_"):
+        return "mf_full"
+    return "arithmetic"
 
 
 # ------------------------------------------------------------------ the history interpreter
@@ -875,7 +904,7 @@ class History:
             self.nontrivial = True
         depth = rec.path.count("~")
         root = rec.root + (".aa" if isaa and rec.root == "src" else "") + ("~v" if depth else "")
-        self.classes.add(f"{rec.ctor.split('<')[0]}|{root}|{WFAMILY[wkind]}")
+        self.classes.add(f"{_cgroup(rec.ctor)}|{root}|{WFAMILY[wkind]}")
         self.classes.add(("write_aa:" if isaa else "write_nd:") + wkind)
         self.classes.add("outcome:" + outcome + ("(alias)" if aliases else "(copy)"))
         if exc is not None:
@@ -994,24 +1023,26 @@ def _op_strategies(multi):
     else:
         first = st.one_of(new, new, new, full, rnd)
         construct = st.one_of(new, new, new, full, rnd, cast, cast, unary, unary, unary, binary)
-    use = st.one_of(handle, handle, derive, opb, write, write, write)
-    return first, construct, use
+    use = st.one_of(handle, handle, handle, derive, derive, opb, write, write)
+    return first, construct, use, write
 
 
 def histories(multi):
-    """a history = 1..6 segments [constructor, 1..6 x (handle | derive | operator | write)], cut at `steps`;
+    """a history = 1..6 segments [constructor, 0..4 x (handle | derive | operator | write), write, 0..2 x (...)],
+    cut at `steps`;
     all indices are free, so a write in a late segment may go through a source or handle of an early one"""
     def strat(tier):
         steps = 30 if tier == "quick" else 60
-        first, construct, use = _op_strategies(multi)
+        first, construct, use, write = _op_strategies(multi)
 
         @st.composite
         def ops(draw):
-            out = [draw(first)]
-            out += draw(st.lists(use, min_size=1, max_size=6))
-            for _ in range(draw(st.integers(0, 5 if tier == "quick" else 11))):
-                out.append(draw(construct))
-                out += draw(st.lists(use, min_size=1, max_size=6))
+            out = []
+            for k in range(draw(st.integers(1, 6 if tier == "quick" else 12))):
+                out.append(draw(first if k == 0 else construct))
+                out += draw(st.lists(use, min_size=0, max_size=4))
+                out.append(draw(write))
+                out += draw(st.lists(use, min_size=0, max_size=2))
             return out[:steps]
 
         return st.fixed_dictionaries({
